@@ -17,19 +17,16 @@ ASSUMPTIONS = [
     "solve_lp_interior: only the verdict logic is checked (OPTIMAL/FEASIBLE claims, no crash); the Newton/"
     "Cholesky step is not modelled; the FEASIBLE residual is judged up to the forward error bound of the code's "
     "own double-precision residual evaluation ((n+m+2) 2^-50 (sum|A_ij x_j| + |b_i| + 1) per row)",
-    "the statement 'the mirror emits a valid certificate on EVERY input' is proved only for LPs that need no "
-    "phase 1 (simplex_certifies_partial); in general the verified checkers are evaluated on the certificate of "
-    "every explored input",
+    "simplex_certifies ('the mirror emits a valid certificate on EVERY input') is proved at eps = 0; the code's "
+    "eps = 1e-10 run is tied to it per input: the verified checkers are evaluated on the certificates of both "
+    "the eps-run and the exact run of every explored input",
 ]
 RULE = ("structured LPs (random, bounded, degenerate vertex, phase-1/equality pairs, infeasible, unbounded; "
         "duplicated/parallel/zero rows, zero columns; integer and dyadic data; both senses; m,n <= 6 quick / "
         "<= 10 thorough; a share with tiny max_iter); non-trivial = phase 1 ran or >= 2 pivots in the mirror; "
         "distinct by canonical (c, A, b, minimize, options)")
 
-MISSING = ["simplex_certifies [S] in full: 'the mirror emits a valid certificate on every input' is proved for LPs "
-           "without phase 1 (b >= 0, eps = 0: simplex_certifies_partial, via the tableau invariant Inv/inv_step); the "
-           "extension over the artificial columns of phase 1 is open and is replaced by evaluating the verified "
-           "checkers on the certificate of every explored input"]
+MISSING = []   # simplex_certifies is proved for every input at eps = 0 (Tableau.lean, Phase1.lean)
 
 TOL = 1e-7          # property tolerance for solve_lp
 VTOL = 1e-9         # R_trace vertex tolerance
@@ -65,7 +62,7 @@ def gen_case(rng, big: bool):
     ipm = {}
     r = rng.random()
     if r < 0.15:
-        ipm["max_iter"] = rng.choice([5, 30, 300])
+        ipm["max_iter"] = rng.choice([5, 30, 200])
     if rng.random() < 0.3:  # hand the data over as floats
         c, A, b = [float(v) for v in c], [[float(v) for v in r_] for r_ in A], [float(v) for v in b]
     return {"family": fam, "c": c, "A": A, "b": b, "minimize": rng.random() < 0.5, "opts": opts, "ipm": ipm}
@@ -263,7 +260,7 @@ def run(ctx, budget):
     ctx.cov["rule"] = RULE
     ctx.cov["missing_theorems"] = MISSING
     cases = list(edge_cases()) + [c["case"] for c in core.load_corpus("C03")]
-    n = 2000 * budget
+    n = (1400 if budget == 1 else 2000 * budget)   # quick tier trimmed: must stay <= 60 s on a loaded box
     cases += [gen_case(ctx.rng, big=(ctx.tier == "thorough" and i % 3 == 0)) for i in range(n)]
     run_cases(ctx, cases)
 
